@@ -10,7 +10,7 @@ from .childcheck import newsa_index, PROTO_NUM
 from .kernel import _addr_raw
 
 KINDS_C11 = ('invalid_ke_never_offered', 'foreign_child_response', 'foreign_init_response', 'multi_proposal_request', 'foreign_ike_rekey_response', 'ke_unimplemented_group',
-             'invalid_ke_cross_offer')
+             'invalid_ke_cross_offer', 'esn_only_request')
 KINDS_C10 = ('bad_reply', 'delete_child_on_rekeyed', 'delete_other_spi')
 KINDS_C17 = ('auth_malformed',)
 KINDS_C14 = ('reuse_spi_request', 'range_request')
@@ -111,6 +111,41 @@ def make(kind, seed, world, ip, tap, reach):
             return []
         rule.label = 'byz.' + kind
         return rule, lambda w: state.get('verdict')
+
+    # ------------------------------------------------------------------------------------------------------------
+    if kind == 'esn_only_request':
+        # a peer that insists on extended sequence numbers (ESN = 1 only) for its CHILD_SAs: a policy that requires "no ESN" has no
+        # transform of that type in common with it - NO_PROPOSAL_CHOSEN, not a suite with the type left out
+        def rule(meta, data):
+            try:
+                h = R.dec_header(data)
+            except R.DecodeError:
+                return None
+            if h['R'] or h['exch'] not in (R.IKE_AUTH, R.CREATE_CHILD_SA):
+                return None
+            opened = ip.open(data)
+            if opened is None:
+                return None
+            _, pls, s = opened
+            sa = next((p for p in pls if p['type'] == R.P_SA), None)
+            if sa is None or not sa['proposals'] or sa['proposals'][0]['proto'] == R.PROTO_IKE:
+                return None
+            r = random.Random(f'byz:{seed}:{meta["key"]}')
+            if r.random() < 0.3:
+                return None
+            n = 0
+            for pr in sa['proposals']:
+                for t in pr['transforms']:
+                    if t['type'] == R.T_ESN and t['id'] == 0:
+                        t['id'] = 1
+                        n += 1
+            if not n:
+                return None
+            count('byz.' + kind)
+            new = ip.seal(s, {'spi_i': h['spi_i'], 'spi_r': h['spi_r'], 'exch': h['exch'], 'I': h['I'], 'R': False, 'id': h['id']}, pls, _rb(r, 16))
+            return [(new, 0.0)]
+        rule.label = 'byz.' + kind
+        return rule, lambda w: None
 
     # ------------------------------------------------------------------------------------------------------------
     if kind == 'invalid_ke_cross_offer':
@@ -976,7 +1011,13 @@ def make(kind, seed, world, ip, tap, reach):
                     # one selector names a protocol, the other stays "any": a packet has to be admitted by both
                     sel['proto'] = r.choice([6, 17])
                     done.append(name + '.proto')
-                if how in ('addr', 'both') and z - a >= 15 and a > 64 and r.random() < 0.25:
+                if how in ('addr', 'both') and z - a >= 15 and r.random() < 0.15:
+                    # first address above last address, both inside the sender's selector: denotes no packet, inside nothing
+                    hi = a + r.randint(8, z - a)
+                    lo = a + r.randint(0, hi - a - 1)
+                    sel['saddr'], sel['eaddr'] = hi.to_bytes(n, 'big'), lo.to_bytes(n, 'big')
+                    done.append(name + '.addr_inverted')
+                elif how in ('addr', 'both') and z - a >= 15 and a > 64 and r.random() < 0.25:
                     # a range that sticks out of the sender's own selector at the lower end and covers half of it: it overlaps the
                     # responder's (equal) policy only in part - neither inside it nor around it - though the smallest network around it is
                     lo = a - r.randint(1, 60)
